@@ -180,6 +180,16 @@ def pat_aborted_bu_and_failing_checker(case, io):
     return False
 
 
+def pat_hidden_after_abort(case, io):
+    """K9: a hidden-dependency abort after an earlier abort in the history"""
+    seen = False
+    for l in io:
+        if l.startswith("abort "):
+            if seen and l == "abort hidden": return True
+            seen = True
+    return False
+
+
 def known_any(*matchers):
     def km(case, io, mo):
         for m in matchers:
@@ -280,13 +290,15 @@ PROPS.update({
               proj_name="C18: dependency_check_errors, executions, scheduling, outputs"),
     "C19": mk("C19", st(pan=3, pano=1, panr=2), 3000, 30000,
               proj_lines(("op ", "out ", "abort ", "done", "skipped", "fs ", "cl ", "bad-op")), OB.c19, [],
-              proj_name="C19: outcomes of all sessions after an abort", known_match=known_if_model_agrees("K6", OB.c19, pat_after_abort)),
+              proj_name="C19: outcomes of all sessions after an abort", known_match=known_any(known_if_model_agrees("K9b", OB.c19, pat_hidden_after_abort),
+                                    known_if_model_agrees("K6", OB.c19, pat_after_abort))),
     "C20": mk("C20", st(rol=3, td=1, bu=1, bud=1, pan=2, pano=1, panr=1, hidp=1, tdr=1, bur=1), 3000, 30000,
               proj_lines(("op ", "out ", "abort ", "done", "skipped", "cl ", "bad-op")),
               lambda c, io: OB.c20(c, io) + ([f"well-formed program aborted: {l}" for l in io if l in ("abort overlap", "abort hidden", "abort cyclic")]
                                              if c.meta.get("stream") in WELLFORMED_STREAMS else []), [],
               proj_name="C20: abort kinds vs from-scratch build of all known tasks",
-              known_match=known_if_model_agrees("K3", OB.c20)),
+              known_match=known_any(known_if_model_agrees("K9", OB.c20, pat_hidden_after_abort),
+                                    known_if_model_agrees("K3", OB.c20))),
 })
 
 
